@@ -920,18 +920,47 @@ def C10(ck):
             reqs.append({'transform': t, 'entropy': e, 'block': rnd.choice([1024, 4096, 16384, 65536, 262144]), 'jobs': rnd.choice([1, 2, 4]),
                          'ck': rnd.choice([0, 32, 64]), 'hint': rnd.choice([-1, 0, size]), 'shape': rnd.choice(shapes), 'seed': ck.seed * 100000 + i,
                          'size': size, 'out': os.path.join(base, 'l%05d.knz' % i)})
-        rc, so, se, dt = kzv.run([ref, 'enc', json.dumps(reqs)], timeout=3600)
-        if rc != 0:
-            raise kzv.ToolFailure('reference encoder front end failed: ' + se[-1500:])
-        enc = [json.loads(l) for l in so.splitlines() if l.startswith('{')]
+        # (b2) size boundaries: format constants are often thresholds on the block length (chunk counts, minimum lengths, raw-copy
+        # limits): every transform and every entropy codec on a last block of exactly s bytes for s around the powers of two
+        bsizes = [s + d for s in (16, 32, 64, 128, 256, 512, 1024, 4096, 16384, 65536) for d in (-1, 0, 1)]
+        if T:
+            bsizes += [s + d for s in (8, 48, 96, 2048, 8192, 32768, 131072) for d in (-1, 0, 1)]
+        i = len(reqs)
+        for bi, s in enumerate(bsizes):
+            for ti, t in enumerate(T_NAMES + ['BWT+RANK+ZRLT', 'TEXT+UTF', 'RLT+LZ']):
+                lead = [0, 2][(bi + ti) % 2]
+                block = 262144 if lead == 0 else 1024 * ((s + 1023) // 1024 + (ti % 2))
+                e = E_NAMES[(bi + ti) % len(E_NAMES)]
+                if e in ('CM', 'TPAQ', 'TPAQX') and s > 20000:
+                    e = 'ANS0'
+                size = lead * block + s
+                shape = SHAPE_FOR.get(t.split('+')[0], 'text')
+                reqs.append({'transform': t, 'entropy': e, 'block': block, 'jobs': [1, 2, 4][(bi + ti) % 3], 'ck': [0, 32, 64][(bi + ti) % 3],
+                             'hint': [-1, size][ti % 2], 'shape': shape, 'seed': ck.seed * 100000 + i, 'size': size,
+                             'out': os.path.join(base, 'l%05d.knz' % i)})
+                i += 1
+        # the front ends take their work on the command line: batches small enough for the argument size limit
+        enc = []
+        for lo in range(0, len(reqs), 120):
+            rc, so, se, dt = kzv.run([ref, 'enc', json.dumps(reqs[lo:lo + 120])], timeout=3600)
+            if rc != 0:
+                raise kzv.ToolFailure('reference encoder front end failed: ' + se[-1500:])
+            enc += [json.loads(l) for l in so.splitlines() if l.startswith('{')]
+        if len(enc) != len(reqs):
+            raise kzv.ToolFailure('reference encoder front end: %d results for %d requests' % (len(enc), len(reqs)))
         okreq = [(r, e) for r, e in zip(reqs, enc) if e.get('ok')]
         lf = [r['out'] for r, e in okreq]
-        rc, so1, se, dt = kzv.run([ref, 'dec', '1'] + lf, timeout=3600)
-        rc2, so2, se2, dt2 = kzv.run([cur, 'dec', str(rnd.choice([1, 2, 4]))] + lf, timeout=3600)
-        if rc != 0 or rc2 != 0:
-            raise kzv.ToolFailure('decoder front end failed: ' + se[-800:] + se2[-800:])
-        d1 = [json.loads(l) for l in so1.splitlines() if l.startswith('{')]
-        d2 = [json.loads(l) for l in so2.splitlines() if l.startswith('{')]
+        d1, d2 = [], []
+        curjobs = str(rnd.choice([1, 2, 4]))
+        for lo in range(0, len(lf), 300):
+            rc, so1, se, dt = kzv.run([ref, 'dec', '1'] + lf[lo:lo + 300], timeout=3600)
+            rc2, so2, se2, dt2 = kzv.run([cur, 'dec', curjobs] + lf[lo:lo + 300], timeout=3600)
+            if rc != 0 or rc2 != 0:
+                raise kzv.ToolFailure('decoder front end failed: ' + se[-800:] + se2[-800:])
+            d1 += [json.loads(l) for l in so1.splitlines() if l.startswith('{')]
+            d2 += [json.loads(l) for l in so2.splitlines() if l.startswith('{')]
+        if len(d1) != len(lf) or len(d2) != len(lf):
+            raise kzv.ToolFailure('decoder front ends: %d / %d results for %d streams' % (len(d1), len(d2), len(lf)))
         nref = 0
         for (r, e), a, b in zip(okreq, d1, d2):
             refok = bool(a.get('ok')) and a.get('dig') == e['orig']
@@ -1425,3 +1454,43 @@ def replay_file(pid, path):
         return 1
     print('OK property=%s replay=%s (not reproduced on the current tree)' % (pid, path))
     return 0
+
+
+# ================================================================================================
+# Beyond the listed properties (bin/check X..): specifications grown to cover more of the system. Their verdicts are
+# reported as DEVIATION lines and written to /verif/evidence-extra; they are not registered in MANIFEST.json.
+# ================================================================================================
+LEVEL['X01'] = 'model_checking'
+
+
+def X01(ck):
+    """Listener events of Writer / Reader: KzEvents (design) + Trace_Events (real logs), sharing KzEventLog."""
+    T = thorough(ck)
+    ck.cov['rule'] = ('KzEvents for both sides and (N blocks, J jobs) in the listed configurations: per-block phase order, batches do not overlap, '
+                      'reader deliveries in block order, completeness, phantom deliveries bounded (as found); real listener logs of random '
+                      'round trips (jobs 1..4 both sides, ck 0/32/64, panicking listeners) judged by Trace_Events with the same formulas plus '
+                      'sizes / hashes against the independent parser and checksum reference')
+    for side in ('w', 'r'):
+        for N, J in (((3, 2), (2, 3), (4, 3), (5, 2)) if T else ((3, 2), (2, 3), (4, 2))):
+            c = ('CONSTANTS\n N = %d\n J = %d\n Side = "%s"\nSPECIFICATION Spec\nINVARIANTS OrderOK BarrierOK DeliveryOK CompleteOK PhantomOK\n'
+                 'PROPERTY Finishes\n' % (N, J, side))
+            res = kzv.tlc('KzEvents', c, workers=4, timeout=1800)
+            ck.add_tlc(res, 'KzEvents side=%s N=%d J=%d' % (side, N, J))
+            if not res.ok:
+                raise kzv.ToolFailure('KzEvents fails its own check: ' + res.out[-1500:])
+    kzh = kzv.build_harness()
+    tf = os.path.join(kzv.BUILD, 'tlc', 'events_%d.ndjson' % os.getpid())
+    n = 3000 if T else 400
+    rc, so, se, dt = kzv.run([kzh, 'events', '-n', str(n), '-seed', str(ck.seed), '-out', tf], timeout=3600)
+    if rc != 0:
+        raise kzv.ToolFailure('events driver failed: ' + se[-1500:])
+    viols, stats = kzv.validate_runs('Trace_Events', tf, reset_ev='Case', timeout=3600)
+    runs = int(so.strip() or 0)
+    ck.cov['evaluations'] += runs
+    ck.cov['distinct_nontrivial'] += runs
+    ck.cov['traces_validated_against_impl'] += runs
+    ck.cov['states'] += stats['distinct']
+    for v in viols:
+        ck.violation({'kind': 'events', 'pred': v['bad'], 'cfg': v['run'].get('cfg')}, {'cmd': 'events', 'case': v['run'].get('cfg'), 'event': v['event'],
+                                                                                  'trace_window': v['window']}, name='events')
+    os.remove(tf)
